@@ -24,10 +24,85 @@ def run(tier, seed):
         out.min_nontrivial = 20
         out.assumptions = ["record bodies look like protobuf messages (non-zero first byte); a zero length terminates a stream",
                            "Miri lane (thorough) interprets the same reader on small streams; see coverage.miri"]
-        out.extra["miri"] = miri_lane(seed, 4 if tier == "quick" else 16, 2 if tier == "quick" else 8, out)
+        from concurrent.futures import ThreadPoolExecutor
+        with ThreadPoolExecutor(max_workers=2) as ex:
+            fx = ex.submit(export_part, out, wd, seed, tier)
+            out.extra["miri"] = miri_lane(seed, 4 if tier == "quick" else 16, 2 if tier == "quick" else 8, out)
+            fx.result()
         return out.finish()
     finally:
         shutil.rmtree(wd, ignore_errors=True)
+
+
+def export_part(out, wd, seed, tier):
+    """the transfer file as clients get it: a real node with several MB of configs hands out its export over HTTP (console transfer export and
+    /rnacos/backup), a fresh node imports it; every config must arrive, unchanged. Sizes around tokio's 2 MiB file-read limit."""
+    import hashlib
+    import os
+    import random
+    import time
+    import procrig
+    from c18 import multipart
+    common.build(need_bin=True)
+    V1 = "/rnacos/api/console"
+    rnd = random.Random(seed * 31 + 7)
+    info = {}
+    a = b = None
+    try:
+        a = procrig.Node(os.path.join(wd, "exp"), 1, name="exp-a")
+        b = procrig.Node(os.path.join(wd, "exp"), 1, name="exp-b")
+        a.start()
+        b.start()
+        sizes = [300, 70_000, 700_000, 1_300_000, 900_000, 5_000, 2_200_000, 64, 450_000] + ([3_000_000, 1_048_576] if tier != "quick" else [])
+        want = {}
+        for i, n in enumerate(sizes):
+            content = ("%d:" % i) + "".join(rnd.choice("abcdefghijklmnopqrstuvwxyz0123456789") for _ in range(64)) * (n // 64 + 1)
+            content = content[:max(n, 8)]
+            r = a.post("/nacos/v1/cs/configs", form={"dataId": "exp%d" % i, "group": "c20exp", "content": content}, timeout=30)
+            if r.status != 200:
+                raise common.Inconclusive("publish of %d bytes on node A refused: %s" % (n, r.status))
+            want["exp%d" % i] = (len(content), hashlib.md5(content.encode()).hexdigest())
+        ta, _ = a.console_login("admin", "admin", wait=15)
+        tb, _ = b.console_login("admin", "admin", wait=15)
+        if not ta or not tb:
+            raise common.Inconclusive("console login failed")
+        blob = a.console("GET", V1 + "/transfer/export", ta, timeout=60).body
+        info["export_bytes"] = len(blob)
+        if len(blob) < sum(sizes):
+            out.violation("transfer-export/file-shorter-than-its-contents", {"export_bytes": len(blob), "config_bytes": sum(sizes)})
+            return
+        body, ct = multipart({}, "all.data", bytes(blob))
+        r = b.console("POST", V1 + "/transfer/import", tb, body=body, headers={"Content-Type": ct, "import-config": "1", "import-cache": "0", "import-mcp": "0", "import-naming": "0", "import-user": "0"}, timeout=120)
+        if r.status != 200:
+            raise common.Inconclusive("transfer import refused: %s %s" % (r.status, r.body[:120]))
+        t0 = time.time()
+        got = {}
+        while time.time() - t0 < 30:
+            got = {}
+            for k in want:
+                g = b.get("/nacos/v1/cs/configs", params={"dataId": k, "group": "c20exp"}, timeout=20)
+                got[k] = (len(g.body), hashlib.md5(g.body).hexdigest()) if g.status == 200 else ("status %s" % g.status,)
+            if got == want:
+                break
+            time.sleep(1.0)
+        out.evaluations += len(want)
+        bad = {k: [want[k], got.get(k)] for k in want if got.get(k) != want[k]}
+        if bad:
+            first = sorted(bad, key=lambda k: int(k[3:]))[0]
+            out.violation("transfer-export-import/configs-lost-or-changed/export-%s-2MiB" % ("above" if len(blob) > 2 * 1024 * 1024 else "below"),
+                          {"export_bytes": len(blob), "configs": len(want), "lost_or_changed": len(bad), "first": [first] + bad[first], "sizes_in_order": sizes})
+        else:
+            out.shape("transfer-export-import/%dMiB-export/all-configs-arrive" % (len(blob) // (1024 * 1024)))
+            info["status"] = "held"
+    except common.Inconclusive as e:
+        info["status"] = "inconclusive: %s" % str(e)[:300]
+    except OSError as e:
+        info["status"] = "inconclusive: %r" % e
+    finally:
+        for n in (a, b):
+            if n is not None:
+                n.kill()
+        out.extra["export_part"] = info
 
 
 def miri_lane(seed, n_seeds, n_streams, out):
